@@ -35,6 +35,7 @@ func (st *raftPersistStorage) SaveSnap(snap raftpb.Snapshot) error {
 	if err != nil {
 		return err
 	}
+	verifCrashPoint("ps.snapfile.after", walsnap.Term, walsnap.Index)
 	return st.WAL.SaveSnapshot(walsnap)
 }
 
